@@ -121,6 +121,20 @@ func init() {
 		} else {
 			fail("handleExecveStarted not found")
 		}
+		// and every path through handleExecve itself that kills the namespace (sync-after-exec refusal)
+		if fd := findFunc(ef, "containerServer", "handleExecve"); fd != nil {
+			for _, p := range pathsOf(fd.Body.List) {
+				kills := false
+				for _, s := range p {
+					if strings.HasPrefix(s, "syscall.Kill(-1") {
+						kills = true
+					}
+				}
+				if kills {
+					paths = append(paths, p)
+				}
+			}
+		}
 		g.p("def execStartedPaths : List (List String) := [\n")
 		for i, p := range paths {
 			sep := ","
